@@ -8,7 +8,7 @@ META = {
     'rule': 'seeded random grammars: CNF grammars (table, every cell, words <=4) and arbitrary simple-format grammars with epsilon, '
             'unit, cyclic and useless rules (membership, all words <=4 over the terminals); compared with the Lean model and with '
             'the span-saturation oracle on the ORIGINAL grammar; non-trivial = CNF grammar with a binary rule and a word of length '
-            '>=2, or non-CNF grammar with an epsilon/unit rule; distinct by (grammar, word list)',
+            '>=2, or non-CNF grammar with an epsilon/unit rule; distinct by (grammar, word list); also grammars with several right-hand sides of 10-16 symbols for one variable (more helper variables than capital letters; probe words = mixtures of two right-hand sides) and shallow-bushy vs deep-thin alternatives with words of length 5-9',
     'assumptions': ['terminals/variables disjoint as strings; single-character terminals'],
     'trusted_base': ['Spec: Gamba/Spec/CFG.lean (Gen)'],
 }
@@ -37,6 +37,16 @@ def cases(ctx):
     for i in range(40 if not thorough else 400):
         G = gen.unit_chain_cfg(rng)
         yield {'kind': 'any', 'G': G, 'words': [w for w in gen.all_words(G['Sigma'], 3)][:20]}
+    # several right-hand sides of 10-16 symbols for one variable: the conversion runs out of capital letters while splitting them
+    for i in range(4 if not thorough else 40):
+        G, probes = gen.long_rhs_cfg(rng)
+        if not thorough or ctx.mine(i):
+            yield {'kind': 'any', 'G': G, 'words': probes}
+    for i in range(12 if not thorough else 100):
+        G = gen.doubling_cfg(rng)
+        ws = [w for w in gen.all_words(G['Sigma'], 9) if len(w) >= 5]
+        if not thorough or ctx.mine(i):
+            yield {'kind': 'any', 'G': G, 'words': rng.sample(ws, 30) + [G['Sigma'][0] + G['Sigma'][1] * k for k in range(3, 9)] + [G['Sigma'][1] + G['Sigma'][0] * k for k in range(3, 9)]}
     for i in range(300 if not thorough else 4000):
         G = gen.random_cfg(rng, maxlen=3, multichar=rng.random() < 0.3)
         Sig = sorted(G['Sigma']) or ['a']
